@@ -196,6 +196,10 @@ func (s *memoryStore) SetNode(n store.Node) error {
 	s.mu.Lock()
 	defer s.mu.Unlock()
 	node := memNode{Node: n}
+	if existing, ok := s.nodes[n.ID]; ok {
+		// Updating a node keeps its tracked peers (same as the badger store).
+		node.peers = existing.peers
+	}
 	if node.peers == nil {
 		node.peers = map[store.NodeID]time.Time{}
 	}
